@@ -64,7 +64,7 @@ theorem C01_eval_no_internal_error_except_nan (e : Expr) (hc : CoreShaped e)
   have h1 := sem_of_triple (P := fun x => x = ({} : St)) (Qok := fun _ s' => S {} s' ∧ Scope.Inv s' ∧ True)
     (Qerr := fun e s' => Good e ∧ (NonPanic e → Scope.Inv s')) (programProg_spec cfg fuel e {} Inv_empty hws) {} rfl
   have h2 := sem_of_triple (P := fun x => x = ({} : St)) (Qok := fun _ s' => Safe.Le {} s' ∧ Safe.Safe s' ∧ True)
-    (Qerr := fun e s' => Safe.Good2 e ∧ Safe.Safe s') (Safe.programProg_spec2 cfg fuel e {} Safe.Safe_empty hc) {} rfl
+    (Qerr := fun e s' => Safe.Good2 e ∧ Safe.Safe s' ∧ Safe.SzLe {} s') (Safe.programProg_spec2 cfg fuel e {} Safe.Safe_empty hc) {} rfl
   rw [hx] at h1 h2
   exact only_nan h1.1 h2.1
 
@@ -97,35 +97,30 @@ theorem C01_eval_request_no_internal_error_except_nan (cfg : Cfg) (fuel : Nat) (
   have h1 := sem_of_triple (P := fun x => x = st) (Qok := fun _ s' => S st s' ∧ Scope.Inv s' ∧ True)
     (Qerr := fun e s' => Good e ∧ (NonPanic e → Scope.Inv s')) (requestProg_spec cfg fuel t st hI) st rfl
   have h2 := sem_of_triple (P := fun x => x = st) (Qok := fun _ s' => Safe.Le st s' ∧ Safe.Safe s' ∧ True)
-    (Qerr := fun e s' => Safe.Good2 e ∧ Safe.Safe s') (Safe.requestProg_spec2 cfg fuel t st hS ht) st rfl
+    (Qerr := fun e s' => Safe.Good2 e ∧ Safe.Safe s' ∧ Safe.SzLe st s') (Safe.requestProg_spec2 cfg fuel t st hS ht) st rfl
   rw [hx] at h1 h2
   exact only_nan h1.1 h2.1
 
-/-- … and the store it leaves (after the clean-up of a failed request) is in range again — always,
-    even after a modelled panic; after a request that succeeds the tables are no smaller, so the
-    thunks of the history still exist. -/
+/-- … and the store it leaves (after the clean-up of a failed request) is in range again and its
+    thunk table is no smaller — always, even after a modelled panic — so the thunks of the history
+    still exist for the next request. -/
 theorem C01_eval_request_keeps_inRange (cfg : Cfg) (fuel : Nat) (t : TId) (st : St)
     (hS : InRange st) (ht : t < st.thunks.size) :
-    InRange (runRequest cfg fuel t st).2 ∧
-    ∀ out st', requestProg cfg fuel t st = some (.ok out, st') → st.thunks.size ≤ st'.thunks.size := by
+    InRange (runRequest cfg fuel t st).2 ∧ st.thunks.size ≤ (runRequest cfg fuel t st).2.thunks.size := by
   have h2 := sem_of_triple (P := fun x => x = st) (Qok := fun _ s' => Safe.Le st s' ∧ Safe.Safe s' ∧ True)
-    (Qerr := fun e s' => Safe.Good2 e ∧ Safe.Safe s') (Safe.requestProg_spec2 cfg fuel t st hS ht) st rfl
-  constructor
-  · unfold runRequest
-    simp only []
-    have hrun : (requestProg cfg fuel t).run.run st = requestProg cfg fuel t st := rfl
-    rw [hrun]
-    cases hx : requestProg cfg fuel t st with
-    | none => exact hS
-    | some r =>
-      obtain ⟨r, st'⟩ := r
-      rw [hx] at h2
-      cases r with
-      | ok s => exact h2.2.1
-      | error er => exact h2.2.restore
-  · intro out st' hx
+    (Qerr := fun e s' => Safe.Good2 e ∧ Safe.Safe s' ∧ Safe.SzLe st s') (Safe.requestProg_spec2 cfg fuel t st hS ht) st rfl
+  unfold runRequest
+  simp only []
+  have hrun : (requestProg cfg fuel t).run.run st = requestProg cfg fuel t st := rfl
+  rw [hrun]
+  cases hx : requestProg cfg fuel t st with
+  | none => exact ⟨hS, Nat.le_refl _⟩
+  | some r =>
+    obtain ⟨r, st'⟩ := r
     rw [hx] at h2
-    exact h2.1.1.1
+    cases r with
+    | ok s => exact ⟨h2.2.1, h2.1.1.1⟩
+    | error er => exact ⟨h2.2.1.restore, by simpa [restoreInProgress] using h2.2.2.1⟩
 
 /-- **C01 (evaluator model), histories.**  The store a history starts from (`historyInit`,
     `runHistory_eq`) is in range when the libraries and the sources have the shape the front end
@@ -136,12 +131,43 @@ theorem C01_eval_history_init_inRange (libs : List (String × Expr)) (srcs : Lis
     InRange st0 ∧ ∀ t ∈ ts, t < st0.thunks.size := by
   have := sem_of_triple (P := fun x => x = ({} : St))
     (Qok := fun ts s' => Safe.Le {} s' ∧ Safe.Safe s' ∧ ∀ t ∈ ts, t < s'.thunks.size)
-    (Qerr := fun e s' => Safe.Good2 e ∧ Safe.Safe s')
+    (Qerr := fun e s' => Safe.Good2 e ∧ Safe.Safe s' ∧ Safe.SzLe {} s')
     (Safe.historyInit_spec2 libs srcs {} Safe.Safe_empty hl hs) {} rfl
   have hrun : (historyInit libs srcs).run.run {} = historyInit libs srcs {} := rfl
   rw [hrun] at h
   rw [h] at this
   exact ⟨this.2.1, this.2.2⟩
+
+/-- what a history maintains between its requests: the store is well scoped and in range, the
+    thunks of the sources exist -/
+def HistOk (ts : List TId) (st : St) : Prop :=
+  Scoped st ∧ InRange st ∧ ∀ t ∈ ts, t < st.thunks.size
+
+/-- the store a history starts from -/
+theorem C01_eval_history_init_ok (libs : List (String × Expr)) (srcs : List Expr)
+    (hl : ∀ p ∈ libs, analyze p.2 (historyEnv libs) = .ok () ∧ CoreShaped p.2)
+    (hs : ∀ e ∈ srcs, analyze e (historyEnv libs) = .ok () ∧ CoreShaped e) (ts : List TId) (st0 : St)
+    (h : ((historyInit libs srcs).run).run {} = some (.ok ts, st0)) : HistOk ts st0 := by
+  have h1 := C09_eval_history_init_scoped libs srcs (fun p hp => (hl p hp).1) (fun e he => (hs e he).1) ts st0 h
+  have h2 := C01_eval_history_init_inRange libs srcs (fun p hp => (hl p hp).2) (fun e he => (hs e he).2) ts st0 h
+  exact ⟨h1, h2.1, h2.2⟩
+
+/-- **C01 (evaluator model), one step of a history.**  A request on a source thunk either leaves a
+    store on which the next request can run under the same guarantees — whatever its outcome: a
+    value, a run-time error, stack overflow, out of fuel — or it ended in the comparison of a NaN;
+    it never ends in another modelled panic (`C01_eval_request_no_internal_error_except_nan`). -/
+theorem C01_eval_history_step (cfg : Cfg) (fuel : Nat) (ts : List TId) (t : TId) (st : St)
+    (h : HistOk ts st) (ht : t ∈ ts) :
+    HistOk ts (runRequest cfg fuel t st).2 ∨
+    ∃ st', requestProg cfg fuel t st = some (.error (.internal "partial_cmp of NaN"), st') := by
+  obtain ⟨hI, hS, hts⟩ := h
+  have hk := C01_eval_request_keeps_inRange cfg fuel t st hS (hts t ht)
+  rcases C09_eval_request_keeps_scoped cfg fuel t st hI with h1 | ⟨m, st', hx, _⟩
+  · exact .inl ⟨h1, hk.1, fun u hu => Nat.lt_of_lt_of_le (hts u hu) hk.2⟩
+  · have := C01_eval_request_no_internal_error_except_nan cfg fuel t st hI hS (hts t ht) m st' hx
+    unfold NanPanic at this
+    subst this
+    exact .inr ⟨st', hx⟩
 
 /-! Non-vacuity.  The program of the non-vacuity example of RsjProps/C09Eval.lean (recursive `local`,
     default argument, object with local, `self`, `$`, comprehension) has the shape `CoreShaped`; so
@@ -179,3 +205,7 @@ open Rsj.Eval in
 #print axioms C01_eval_request_keeps_inRange
 open Rsj.Eval in
 #print axioms C01_eval_history_init_inRange
+open Rsj.Eval in
+#print axioms C01_eval_history_init_ok
+open Rsj.Eval in
+#print axioms C01_eval_history_step
